@@ -157,7 +157,9 @@ func runC07(c *Ctx) {
 				// an empty input is empty whatever the (String) arguments are — also arguments the function would reject
 				// on a non-empty input (a pattern that is no regular expression, a unit that is none, ...)
 				if n >= 1 && !aggregates[name] && funcName(fn.Func) != "funcs.unimplemented" && name != "iif" {
-					for _, sa := range []string{"'['", "'('", "'*'", "'\\\\'", "''", "'(?'", "'x'", "'a{2,1}'", "'lightyears'", "' '"} {
+					for _, sa := range []string{"'['", "'('", "'*'", "'\\\\'", "''", "'(?'", "'x'", "'a{2,1}'", "'lightyears'", "' '",
+						// ... and whatever else they are: no item, an item of another type, several items
+						"{}", "1", "(-1)", "1.5", "true", "@2020", "Patient.name.given", "Patient.name", "Patient.nosuchchild.exists()"} {
 						sargs := make([]string, n)
 						for i := range sargs {
 							sargs[i] = sa
